@@ -21,7 +21,7 @@ CHECK = {
                  "c13_srv_ch_a_components", "c13_uncompressible_plain",
                  "c13_owner_pointer_into_label_starts", "c13_unhinted_pointer_into_label_starts",
                  "c13_anchor_invariant_all_ops", "c13_message_pointers_valid_partial",
-                 "c13_message_pointers_valid"],
+                 "c13_message_pointers_valid", "c13_spec_pointer_rules_hold"],
     "allowed_axioms": [],
     "suites": [{
         "name": "writer",
@@ -68,7 +68,9 @@ MANIFEST = {
                    "(a label start of a name written earlier), strictly before the name, and the new set is the old one plus "
                    "exactly this name's own label starts; MESSAGE LEVEL: the finished message has a layout of name chunks tied, "
                    "in order, to the names of the abstract message of the succeeded operations, every chunk plain or labels + one "
-                   "such pointer, L being exactly the label starts of the chunks; uncompressible RDATA names (SRV, Chaosnet A) are "
+                   "such pointer, L being exactly the label starts of the chunks, AND the decoded finished message passes the "
+                   "specification's own pointer-rule checker (check_qs/check_rrs: every pointer leads strictly before its name to "
+                   "a label start of a name decoded before it); uncompressible RDATA names (SRV, Chaosnet A) are "
                    "plain, RDATA without name components is raw octets, the regenerated component table has no compressible name "
                    "outside RFC 1035's eleven types (and equals the RFC layout of the specification); with compression disabled a "
                    "name write emits the plain form whatever the hint. The two-name heuristic scan only reports real suffix "
